@@ -1,6 +1,6 @@
 import logging
 from collections import deque
-from itertools import chain, combinations, permutations
+from itertools import chain, combinations
 from typing import List, Optional, Set, Tuple
 
 import networkx as nx
@@ -1077,40 +1077,19 @@ def _meek_rule4(graph: CPDAG, i: str, j: str) -> bool:
 
     # Check if i-j.
     if graph.has_edge(i, j, graph.undirected_edge_name):
-        # Find nodes k where k is i-k
-        adj_i = set()
         for k in graph.neighbors(i):
-            if not graph.has_edge(k, i, graph.directed_edge_name):
-                adj_i.add(k)
-
-        # Find nodes l where j is l->j.
-        parent_j = set()
-        for k in graph.predecessors(j):
-            if not graph.has_edge(j, k, graph.directed_edge_name):
-                parent_j.add(k)
-
-        # generate all permutations of sets containing neighbors of i and parents of j
-        permut = permutations(adj_i, len(parent_j))
-        unq = set()  # type: ignore
-        for comb in permut:
-            zipped = zip(comb, parent_j)
-            unq.update(zipped)
-
-        # check if these pairs have a directed edge between them and that k-j does not exist
-        dedges = set(graph.directed_edges)
-        undedges = set(graph.undirected_edges)
-        candidate_k = set()
-        for pair in unq:
-            if pair in dedges:
-                if (pair[0], j) not in undedges:
-                    candidate_k.add(pair)
-
-        # if there are candidate 'k->l' pairs, then orient the edge accordingly
-        if len(candidate_k) > 0:
-            # Make i-j into i->j
-            # logger.info(f"R2: Removing edge {i}-{j} to form {i}->{j}.")
-            graph.orient_uncertain_edge(i, j)
-            added_arrows = True
+            # need i - k (undirected) with k different from j
+            if k == j or not graph.has_edge(i, k, graph.undirected_edge_name):
+                continue
+            # k and j must be nonadjacent (in any edge type and direction)
+            if j in graph.neighbors(k):
+                continue
+            # look for a chain k -> l -> j
+            if any(graph.has_edge(l_node, j, graph.directed_edge_name) for l_node in graph.children(k)):
+                # Make i-j into i->j
+                graph.orient_uncertain_edge(i, j)
+                added_arrows = True
+                break
     return added_arrows
 
 
